@@ -25,7 +25,8 @@ def tla_set(xs):
 
 def write_mc_cfg(path, *, spec="Spec", deviations=(), net_kinds=(), net_budget=0, adv_kinds=(), adv_budget=0,
                  max_ord=2, fpcs=("match",), fpss=("none",), idcs=("certC",), idss=("certS",), deadline=False,
-                 app=True, invariants=(), properties=(), emit="NoEmit", extra_inv=(), server_hvr=False, anti_replay=()):
+                 app=True, invariants=(), properties=(), emit="NoEmit", extra_inv=(), server_hvr=False, anti_replay=(),
+                 tick_slack=None):
     with open(path, "w") as f:
         f.write(f"""SPECIFICATION {spec}
 CONSTANTS
@@ -42,6 +43,8 @@ CONSTANTS
   FpSs = {tla_set(fpss)}
   IdCs = {tla_set(idcs)}
   IdSs = {tla_set(idss)}
+  TickQuiet = {"TRUE" if tick_slack is None else "FALSE"}
+  TickSlack = {0 if tick_slack is None else tick_slack}
   UseDeadline = {"TRUE" if deadline else "FALSE"}
   SendAppData = {"TRUE" if app else "FALSE"}
 """)
